@@ -16,7 +16,10 @@ RULE = (
     "(below it for BWR2/BWR_below/Flatte): (1) bare functions of breit_wigner.py (BW, BWR, BWR2, BWR_normal, Gamma, Gamma2, GS, "
     "Bprime, Bprime_q2, Bprime_polynomial, get_bprime_coeff; L=0..8) vs a NumPy transcription and the generic clauses; (2) "
     "Particle.__call__(m) of every registered model with a documented closed formula, built through ConfigLoader cards; (3) "
-    "sympy denominators evaluated numerically vs 1/numeric shape.  non-trivial = L>=1 or model with running width; distinct = "
+    "sympy denominators of every model that offers one (inherited ones included) evaluated numerically vs 1/numeric shape; (4) 17 more registered "
+    "models against their docstrings (LASS, FlatteGen/Flatte2 with every documented option, KMatrixSingleChannel, KmatrixSimple, MultiBW, the "
+    "interpolation family vs numpy.interp / SciPy CubicSpline, PCHIP, barycentric Lagrange, histogram steps; node identity, cubic reproduction, "
+    "monotonicity).  non-trivial = L>=1 or model with running width; distinct = "
     "(model, L, parameter draw)."
 )
 ASSUMPTIONS = [
@@ -40,8 +43,8 @@ REQUIRE = {
     "min_nontrivial": 60,
 }
 LEVEL_TEXT = ("Differential runtime monitor: the bare line-shape/barrier functions and Particle.__call__(m) of every registered model with a "
-              "documented closed formula (obtained from ConfigLoader cards) are compared with NumPy transcriptions of the docstring formulas "
-              "on random parameter sets and mass grids; symbolic denominators are evaluated and compared with the numeric shapes.")
+              "documented formula or defining statement (33 models, obtained from ConfigLoader cards) are compared with NumPy/SciPy transcriptions "
+              "of the docstrings on random parameter sets and mass grids; symbolic denominators are evaluated and compared with the numeric shapes.")
 TECHNIQUE = "differential runtime monitor vs NumPy transcription of the documented formulas"
 KF_INHERITED_DOM = "sympy denominator inherited from the plain BWR particle by a model with another shape (BWR_normal, GS_rho, LASS)"
 
